@@ -2,12 +2,21 @@ import OasisModel.Proto
 import OasisModel.NodeDB.Spec
 import OasisModel.NodeDB.Badger
 import OasisModel.NodeDB.Crash
+import OasisModel.NodeDB.Pruner
 /-
 Driver of the node-database models (properties C06 / C07), executable `om_nodedb`.
 The first input line selects the sub-mode:
 
   mode spec      the abstract contract `Spec` as a checker with witness (dbdrv)
   mode badger    the bookkeeping model `Badger` of the badger backend as an exact oracle (dbdrv)
+
+### mode pruner — the REAL abci genericPruner over a scripted node database (dbdrv)
+  new
+  prune <keepN> <latest> <dbEarliest> <vetoed|-> <notEarliest|-> <failing|-> <syncOk 0|1>
+        <asked|-> <err 0|1> <lastRetained afterwards> <lastRetained seen inside Sync | ->
+The model (`Pruner.prune`, state carried from call to call) must give the same sequence of
+ndb.Prune calls, the same error flag, the same retained version afterwards and the same retained
+version while Sync runs (Sync precedes the advance; after a failed Sync it has not moved).
 
 ### mode crash — crashdrv (property C07)
   plan <backend> <commit|finalize|prune> <res> <facts|-> <boundary,..|->   boundaries the real op passed
@@ -23,6 +32,7 @@ that completes, and `new` at the last boundary).
   finalize <v> <chosen t:h,..|-> <res>
   prune <v> <res>
   obs / has as above;  readable <v> <t> <h> <0|1>   (only for roots the DB claims to have)
+  nodes <v> <t> <h> <n> <visible ids|->   GetNode under the reported root (v,t,h) for EVERY node id 1..n
 The model must predict every result, every observer and exactly which claimed roots read back
 completely.  When model and implementation agree that a claimed root is unreadable the answer is
 `ok note=<cause>`, naming the bookkeeping rule that deleted the missing node.
@@ -343,6 +353,17 @@ def badgerStep (st : BSt) (line : String) : BSt × String :=
       if Badger.hasRoot s r == (b == "1") then (st, "ok")
       else fail s!"hasroot-mismatch HasRoot({showRoot r}) impl={b} model={Badger.hasRoot s r}"
     | _, _, _ => fail "bad-op"
+  | ["nodes", v, t, h, n, vis] =>
+    match v.toNat?, t.toNat?, h.toNat?, n.toNat?, parseNats vis with
+    | some v, some t, some h, some n, some vis =>
+      let r : Root := { ver := v, typ := t, hash := h }
+      let want := ((List.range n).map (· + 1)).filter (fun x => Badger.nodeVisible s r x)
+      if want == vis then (st, "ok")
+      else
+        let implOnly := vis.filter (fun x => !want.contains x)
+        let modelOnly := want.filter (fun x => !vis.contains x)
+        fail s!"node-store-mismatch at version {v}: visible only in the implementation {implOnly}, only in the model {modelOnly}"
+    | _, _, _, _, _ => fail "bad-op"
   | ["readable", v, t, h, b] =>
     match v.toNat?, t.toNat?, h.toNat? with
     | some v, some t, some h =>
@@ -396,11 +417,36 @@ def crashStep (line : String) : String :=
   | [] => "ok"
   | _ => "DIVERGE bad-op"
 
+/-! ### mode pruner -/
+
+def prunerStep (p : Pruner.PSt) (line : String) : Pruner.PSt × String :=
+  match words line with
+  | ["new"] => ({ earliest := 0, lastRetained := 0 }, "ok")
+  | ["prune", k, latest, dbE, veto, ne, fl, sync, asked, err, ret, ras] =>
+    match k.toNat?, latest.toNat?, dbE.toNat?, parseNats veto, parseNats ne, parseNats fl, parseNats asked, ret.toNat? with
+    | some k, some latest, some dbE, some veto, some ne, some fl, some asked, some ret =>
+      let db : Nat → Pruner.DbRes := fun v =>
+        if fl.contains v then .fail else if ne.contains v then .notEarliest else .ok
+      let o := Pruner.prune k latest dbE (fun v => veto.contains v) db p (sync == "1")
+      let rasM := match o.retainedAtSync with | some r => toString r | none => "-"
+      let errM := if o.err then "1" else "0"
+      if o.asked != asked then (o.st, s!"DIVERGE pruner-calls ndb.Prune called for {asked}, model {o.asked}")
+      else if errM != err then (o.st, s!"DIVERGE pruner-error impl={err} model={errM}")
+      else if rasM != ras then
+        (o.st, s!"DIVERGE pruner-sync-order last retained version while Sync runs: impl={ras} model={rasM}")
+      else if o.st.lastRetained != ret then
+        (o.st, s!"DIVERGE pruner-last-retained impl={ret} model={o.st.lastRetained}")
+      else (o.st, "ok")
+    | _, _, _, _, _, _, _, _ => (p, "DIVERGE bad-op")
+  | [] => (p, "ok")
+  | _ => (p, "DIVERGE bad-op")
+
 inductive Mode where
   | unset
   | spec (st : SpecSt)
   | badger (st : BSt)
   | crash
+  | pruner (p : Pruner.PSt)
 
 def step (m : Mode) (line : String) : Mode × String :=
   match m with
@@ -409,10 +455,12 @@ def step (m : Mode) (line : String) : Mode × String :=
     | ["mode", "spec"] => (.spec {}, "ok")
     | ["mode", "badger"] => (.badger {}, "ok")
     | ["mode", "crash"] => (.crash, "ok")
+    | ["mode", "pruner"] => (.pruner { earliest := 0, lastRetained := 0 }, "ok")
     | _ => (.unset, "DIVERGE bad-mode")
   | .spec st => let (st', out) := specStep st line; (.spec st', out)
   | .badger st => let (st', out) := badgerStep st line; (.badger st', out)
   | .crash => (.crash, crashStep line)
+  | .pruner p => let (p', out) := prunerStep p line; (.pruner p', out)
 
 def main : IO Unit := loop step .unset
 
